@@ -96,7 +96,7 @@ static bool encodeTop(int kind, const Tlv &root, Bytes &out) {
 
 // schema-aware mutation: insert a fresh, valid instance of any field of the enclosing composite's schema (yields pure repetitions,
 // pure combinations of mutually exclusive alternatives, misplaced first / last / section elements, longer lists)
-static const int SM_ADD_FIELD = M_COUNT; static const int kMutKinds = M_COUNT + 1;
+static const int SM_ADD_FIELD = M_COUNT; static const int SM_MISPLACE_NC = M_COUNT + 1; static const int kMutKinds = M_COUNT + 2;
 static void composites(Tlv &t, const Schema &s, std::vector<std::pair<Tlv *, const Schema *>> &out) {
     if (!t.nested) return; out.push_back({&t, &s});
     for (auto &k : t.kids) { const Field *f = s.find(k.tag); if (f && f->vt == VT_NEST) composites(k, *f->sub, out); }
@@ -107,6 +107,14 @@ static std::string addField(int kind, Tlv &root, const Pick &pick) {
     uint8_t z = 0; Dec d(&z, 0); GenOpt o; o.full = true; o.variant = pick(3); Tlv v = genValue(f, d, o, 2);
     size_t pos = pick((uint32_t)pr.first->kids.size() + 1); pr.first->kids.insert(pr.first->kids.begin() + pos, v);
     char b[64]; snprintf(b, sizeof b, "add-valid-field(%s.%s)@%zu", pr.second->name, f.name, pos); return b;
+}
+// schema-aware mutation: flag a known element non-critical and move it (or a copy of it) to another position of its composite: a known
+// element does not become ignorable by carrying the non-critical flag, wherever it stands
+static std::string misplaceNc(int kind, Tlv &root, const Pick &pick) {
+    std::vector<std::pair<Tlv *, const Schema *>> cs; composites(root, topSchema(kind), cs); std::vector<size_t> ok; for (size_t i = 0; i < cs.size(); i++) if (!cs[i].first->kids.empty()) ok.push_back(i); if (ok.empty()) return "";
+    auto &pr = cs[ok[pick((uint32_t)ok.size())]]; std::vector<Tlv> &k = pr.first->kids; uint32_t sel = pick((uint32_t)k.size() * 2); size_t i = sel / 2; bool dup = sel & 1;
+    Tlv e = k[i]; e.N = true; if (!dup) k.erase(k.begin() + i); size_t pos = pick((uint32_t)k.size() + 1); k.insert(k.begin() + pos, e);
+    char b[80]; snprintf(b, sizeof b, "%s-with-N-flag(%s/%x)@%zu", dup ? "copy" : "move", pr.second->name, e.tag, pos); return b;
 }
 
 // ---- fingerprints of the parsed objects (SDK getters) ------------------------------------------------------
@@ -267,6 +275,7 @@ static void runCase(Built &bl, const std::vector<std::pair<int, Pick>> &muts, in
     Tlv root = bl.root; std::string mdesc; bool onlyUnknownNc = !muts.empty();
     for (auto &m : muts) {
         if (m.first == SM_ADD_FIELD) { std::string a = addField(kind, root, m.second); if (!a.empty()) { mdesc += a + " "; onlyUnknownNc = false; c.cls("mut:add-valid-field"); } continue; }
+        if (m.first == SM_MISPLACE_NC) { std::string a = misplaceNc(kind, root, m.second); if (!a.empty()) { mdesc += a + " "; onlyUnknownNc = false; c.cls("mut:misplace-with-N-flag"); } continue; }
         MutInfo mi = mutateTree(root, m.second, m.first); if (mi.kind < 0) continue; mdesc += std::string(mutName(mi.kind)) + "@" + pathStr(mi) + " "; if (mi.kind != M_INSERT_UNKNOWN_NC) onlyUnknownNc = false; c.cls(std::string("mut:") + mutName(mi.kind)); }
     if (mdesc.empty()) onlyUnknownNc = false;
     Bytes enc; if (!encodeTop(kind, root, enc) || enc.size() > 65000 || enc.empty()) { c.skip("mutated object does not encode"); return; }
@@ -350,6 +359,7 @@ void harness_exh_case(const uint8_t *enc, size_t n, Case &c) {
     Built bl; bl.kind = kind; bl.root = fullInstance(kind, inst); bl.origin = "full-instance:" + num(inst);
     unsigned call = 0; Pick pk = [&](uint32_t m) -> uint32_t { unsigned k = call++; if (m == 0) return 0; if (k == 0) return node % m;
         if (mk == SM_ADD_FIELD) { if (k == 1) return fld % m; if (k == 2) return var % m; return var == 0 ? 0 : (var == 1 ? m - 1 : m / 2); } // field, value variant, position
+        if (mk == SM_MISPLACE_NC) { if (k == 1) return fld % m; return var == 0 ? 0 : (var == 1 ? m - 1 : m / 2); } // (child, copy?) selector, position
         return (var * 7 + k * 3 + (var == 2 ? m - 1 : 0)) % m; };
     std::vector<std::pair<int, Pick>> muts; muts.push_back({mk, pk});
     runCase(bl, muts, 0, c);
@@ -370,6 +380,12 @@ void harness_exhaustive(int shard, int nshards) {
             std::vector<uint8_t> e = {(uint8_t)kind, (uint8_t)inst, (uint8_t)(node >> 8), (uint8_t)node, (uint8_t)SM_ADD_FIELD, (uint8_t)var, (uint8_t)fld};
             if (runExh(e)) return;
         }
-        stats().exhaustive[std::string(topName(kind)) + "/full-instance-" + num(inst) + ": (positions x mutation kinds + composites x schema fields) x 3 variants"] = cnt;
+        { std::vector<size_t> ok; for (size_t i = 0; i < cs.size(); i++) if (!cs[i].first->kids.empty()) ok.push_back(i);
+          for (unsigned node = 0; node < ok.size(); node++) for (unsigned sel = 0; sel < cs[ok[node]].first->kids.size() * 2 && sel < 250; sel++) for (unsigned var = 0; var < 3; var++) {
+            cnt++; if ((int)(idx++ % (uint64_t)nshards) != shard) continue;
+            std::vector<uint8_t> e = {(uint8_t)kind, (uint8_t)inst, (uint8_t)(node >> 8), (uint8_t)node, (uint8_t)SM_MISPLACE_NC, (uint8_t)var, (uint8_t)sel};
+            if (runExh(e)) return;
+          } }
+        stats().exhaustive[std::string(topName(kind)) + "/full-instance-" + num(inst) + ": (positions x mutation kinds + composites x schema fields + composites x children x {move, copy} with N flag) x 3 variants"] = cnt;
     }
 }
